@@ -483,6 +483,39 @@ def replay_toy():
           problems.append('BatchAddX on toy%d' % p)
         if norm(c.BatchAddList([P] * len(lst), list(lst))) != wantl:
           problems.append('BatchAddList on toy%d' % p)
+      if p <= 31:
+        # all (P, Q1, Q2): batches whose shared inversion mixes two operands
+        normx = lambda L: [None if x is None else int(x) for x in L]
+        for P in pts:
+          for Q1 in pts:
+            w1 = _ref_add(p, a_, P, Q1)
+            for Q2 in pts:
+              wantl = [w1, _ref_add(p, a_, P, Q2)]
+              wantx = [None if w == INF else w[0] for w in wantl]
+              if norm(c.BatchAdd(P, [Q1, Q2])) != wantl:
+                problems.append('BatchAdd(%r, [%r, %r]) on toy%d' %
+                                (P, Q1, Q2, p))
+              if normx(c.BatchAddX(P, [Q1, Q2])) != wantx:
+                problems.append('BatchAddX(%r, [%r, %r]) on toy%d' %
+                                (P, Q1, Q2, p))
+              if norm(c.BatchAddList([P, P], [Q1, Q2])) != wantl:
+                problems.append('BatchAddList([%r]*2, [%r, %r]) on toy%d' %
+                                (P, Q1, Q2, p))
+              if len(problems) > 5:
+                break
+            if len(problems) > 5:
+              break
+          if len(problems) > 5:
+            break
+        for x1 in [None] + list(range(p)):
+          for x2 in [None] + list(range(p)):
+            inv = c.BatchInverse([x1, x2])
+            for x_, i_ in zip((x1, x2), inv):
+              if x_ and (i_ is None or x_ * int(i_) % p != 1):
+                problems.append('BatchInverse([%r, %r]) on toy%d' %
+                                (x1, x2, p))
+          if len(problems) > 5:
+            break
       if [INF if x == INF else tuple(map(int, x)) for x in c.BatchDouble(
           [q for q in lst if q == INF or q[1] != 0])] != [
               _ref_add(p, a_, q, q) for q in lst if q == INF or q[1] != 0]:
